@@ -50,6 +50,7 @@ type regStore struct {
 type lookupHelper struct {
 	ok  bool
 	why string
+	nf  int64 // index helpers: the value returned when nothing matches
 }
 
 type storeCtx struct {
@@ -185,7 +186,9 @@ func (sc *storeCtx) isSlice(f *kit.Func, e ast.Expr) bool {
 type elemBinding struct {
 	rs     *ast.RangeStmt // enclosing range over the register slice (index / alias forms)
 	ptr    types.Object   // pointer variable standing for the element (alias or helper result)
-	helper *kit.Func      // lookup helper that produced ptr
+	idx    types.Object   // index variable produced by an index helper
+	nf     int64          // value the index helper returns when nothing matches (negative)
+	helper *kit.Func      // lookup helper that produced ptr / idx
 	why    string
 }
 
@@ -256,7 +259,23 @@ func (sc *storeCtx) bind(st *regStore) elemBinding {
 		if rs := sc.rangeFor(f, st.stmt, x); rs != nil {
 			return elemBinding{rs: rs}
 		}
-		return elemBinding{why: fmt.Sprintf("`%s` is not indexed by the key of an enclosing range over the register slice", f.Str(x))}
+		// index produced by a lookup helper: ix := r.indexOf(address)
+		if sc.isSlice(f, x.X) {
+			if o := kit.ObjOf(info, x.Index); o != nil {
+				if def := uniqueDef(f, o); def != nil {
+					if call, ok := ast.Unparen(def).(*ast.CallExpr); ok {
+						if h := f.CalleeFunc(call); h != nil && h.Decl != nil {
+							lh := sc.verifyIndexHelper(h)
+							if !lh.ok {
+								return elemBinding{why: fmt.Sprintf("%s is not a recognised index lookup helper: %s", h.Name, lh.why)}
+							}
+							return elemBinding{idx: o, nf: lh.nf, helper: h}
+						}
+					}
+				}
+			}
+		}
+		return elemBinding{why: fmt.Sprintf("`%s` is indexed neither by the key of an enclosing range over the register slice nor by the result of a lookup helper", f.Str(x))}
 	case *ast.Ident:
 		o := kit.ObjOf(info, x)
 		def := uniqueDef(f, o)
@@ -310,9 +329,20 @@ func (sc *storeCtx) atoms(f *kit.Func, b elemBinding, stored types.Object) kit.A
 		if ie, ok := e.(*ast.IndexExpr); ok && b.rs != nil {
 			return sc.isSlice(f, ie.X) && kit.ObjOf(info, ie.Index) == kit.ObjOf(info, b.rs.Key)
 		}
+		if ie, ok := e.(*ast.IndexExpr); ok && b.idx != nil {
+			return sc.isSlice(f, ie.X) && kit.ObjOf(info, ie.Index) == b.idx
+		}
 		return false
 	}
 	elemField := func(e ast.Expr) (types.Object, bool) {
+		// a local that was set once from a field of the element stands for it
+		if id, isId := ast.Unparen(e).(*ast.Ident); isId {
+			if o := kit.ObjOf(info, id); o != nil && !params[o] {
+				if def := uniqueDef(f, o); def != nil {
+					e = def
+				}
+			}
+		}
 		sel, ok := ast.Unparen(e).(*ast.SelectorExpr)
 		if !ok || !isElem(sel.X) {
 			return nil, false
@@ -330,10 +360,65 @@ func (sc *storeCtx) atoms(f *kit.Func, b elemBinding, stored types.Object) kit.A
 				e = ast.Unparen(call.Args[0])
 			}
 		}
-		return params[kit.ObjOf(info, e)]
+		if params[kit.ObjOf(info, e)] {
+			return true
+		}
+		// a local set once from (a conversion of) a parameter
+		if o := kit.ObjOf(info, e); o != nil {
+			if def := uniqueDef(f, o); def != nil {
+				d := ast.Unparen(def)
+				if call, ok := d.(*ast.CallExpr); ok && len(call.Args) == 1 {
+					if tv, ok := info.Types[call.Fun]; ok && tv.IsType() {
+						d = ast.Unparen(call.Args[0])
+					}
+				}
+				return params[kit.ObjOf(info, d)]
+			}
+		}
+		return false
 	}
 	return func(e ast.Expr) (string, bool, bool) {
 		e = ast.Unparen(e)
+		// result of an index helper compared with a constant: decided when the
+		// outcome is the same for every index >= 0 and different for "not found"
+		if b.idx != nil {
+			if x, y, op, ok := kit.CmpAtom(e); ok {
+				if kit.ObjOf(info, y) == b.idx {
+					x, y = y, x
+					op = map[token.Token]token.Token{token.LSS: token.GTR, token.GTR: token.LSS, token.LEQ: token.GEQ, token.GEQ: token.LEQ, token.EQL: token.EQL, token.NEQ: token.NEQ}[op]
+				}
+				if kit.ObjOf(info, x) == b.idx {
+					if cst, isC := kit.ConstInt(info, y); isC {
+						cmp := func(v int64) bool {
+							switch op {
+							case token.LSS:
+								return v < cst
+							case token.LEQ:
+								return v <= cst
+							case token.GTR:
+								return v > cst
+							case token.GEQ:
+								return v >= cst
+							case token.EQL:
+								return v == cst
+							}
+							return v != cst
+						}
+						notFound := cmp(b.nf)
+						// for all v >= 0 the outcome must be constant: true at 0 and at "infinity" alike
+						f0, fInf := cmp(0), cmp(1<<40)
+						uniform := f0 == fInf && (cst < 0 || (op != token.EQL && op != token.NEQ && cst <= 0))
+						if op == token.EQL || op == token.NEQ {
+							uniform = cst < 0
+						}
+						if uniform && f0 != notFound {
+							// atom "match" is true when found: the condition equals f0 then
+							return "match", !f0, true
+						}
+					}
+				}
+			}
+		}
 		if x, y, op, ok := kit.CmpAtom(e); ok && (op == token.EQL || op == token.NEQ) {
 			for _, pr := range [][2]ast.Expr{{x, y}, {y, x}} {
 				// helper result compared with nil
@@ -568,4 +653,84 @@ func (sc *storeCtx) check(st *regStore) {
 		}
 	}
 	oVal.OK("rejecting validator: no store, exception 3; no validator / accepting validator: stored, nil")
+}
+
+// verifyIndexHelper checks a helper `func(addr) int` that returns the index of
+// the element of the register slice whose address equals (a conversion of)
+// its parameter, found by one range over the slice, and a negative constant
+// when none matches.
+func (sc *storeCtx) verifyIndexHelper(h *kit.Func) *lookupHelper {
+	if lh, ok := sc.helpers[h]; ok {
+		return lh
+	}
+	lh := &lookupHelper{}
+	sc.helpers[h] = lh
+	info := h.Info()
+	sig := h.Obj.Type().(*types.Signature)
+	if sig.Results().Len() != 1 || mbBasicInt(sig.Results().At(0).Type()) == nil {
+		lh.why = "it does not return a single integer"
+		return lh
+	}
+	var rs *ast.RangeStmt
+	n := 0
+	ast.Inspect(h.Body, func(x ast.Node) bool {
+		switch y := x.(type) {
+		case *ast.RangeStmt:
+			if sc.isSlice(h, y.X) && y.Key != nil {
+				rs = y
+			}
+			n++
+		case *ast.ForStmt:
+			n += 2
+		}
+		return true
+	})
+	if n != 1 || rs == nil {
+		lh.why = "it is not a single range over the register slice"
+		return lh
+	}
+	b := elemBinding{rs: rs}
+	for _, match := range []bool{false, true} {
+		st := &kit.Std{F: h}
+		st.Eval.Atom = sc.atoms(h, b, nil)
+		st.OnBranch = func(br kit.Branch, s kit.S) (t, f []kit.S, handled bool) {
+			if br.Kind == kit.BrRange && br.Range == rs && s.Get("a:match") == "T" && !s.Has("it") {
+				return []kit.S{s.Set("it", "1")}, nil, true
+			}
+			return nil, nil, false
+		}
+		val := "F"
+		if match {
+			val = "T"
+		}
+		res := sc.c.P.Graph(h).Run(kit.NewS().Set("a:match", val), st.Client())
+		sc.c.AddValuations(1)
+		if len(res.Exits) == 0 {
+			lh.why = "no exit"
+			return lh
+		}
+		for _, e := range res.Exits {
+			if e.Return == nil || len(e.Return.Results) != 1 {
+				lh.why = "exit without a result"
+				return lh
+			}
+			r := e.Return.Results[0]
+			if match {
+				if kit.ObjOf(info, r) == nil || kit.ObjOf(info, r) != kit.ObjOf(info, rs.Key) {
+					lh.why = fmt.Sprintf("with a matching address it returns `%s`, not the index of the matching element", h.Str(r))
+					return lh
+				}
+				continue
+			}
+			v, isC := kit.ConstInt(info, r)
+			if !isC || v >= 0 {
+				lh.why = fmt.Sprintf("without a matching address it returns `%s`, not a negative constant", h.Str(r))
+				return lh
+			}
+			lh.nf = v
+		}
+	}
+	sc.c.Analysed(h)
+	lh.ok = true
+	return lh
 }
